@@ -78,13 +78,52 @@ class Flow(object):
             self.scope.locals.add(name.name)
             insert_loc(self._names, name)
 
-    @cached_property
+    @property
     def names(self):
+        # type: () -> t.Mapping[str, Name | MultiName]
+        return self._memo('names', self._get_names)
+
+    @property
+    def parent_names(self):
+        # type: () -> t.Mapping[str, Name | MultiName ]
+        return self._memo('parent_names', self._get_parent_names)
+
+    def _memo(self, attr, func):
+        # type: (str, t.Callable[[], t.Any]) -> t.Any
+        # A value computed while loop back edges are being resolved depends on
+        # which of the loops it reached were unresolved at that time; it is
+        # reused only in a context that agrees on those loops.
+        top = self.scope.top
+        resolving = top._resolving
+        try:
+            entries = self._cache[attr]
+        except (AttributeError, KeyError):
+            try:
+                cache = self._cache
+            except AttributeError:
+                cache = self._cache = {}  # type: dict[str, list[t.Any]]
+            entries = cache[attr] = []
+
+        for hits, reached, value in entries:
+            if not reached or all((l in hits) == (l in resolving) for l in reached):
+                top.note_loops(reached)
+                return value
+
+        frame = (len(resolving), set(), set())  # type: tuple[int, set[LoopFlow], set[LoopFlow]]
+        top._frames.append(frame)
+        try:
+            value = func()
+        finally:
+            top._frames.pop()
+        entries.append((frame[1], frame[2], value))
+        top.note_loops(frame[2])
+        return value
+
+    def _get_names(self):
         # type: () -> t.Mapping[str, Name | MultiName]
         return MergedDict({n.name: n for n in self._names}, self.parent_names)
 
-    @cached_property
-    def parent_names(self):
+    def _get_parent_names(self):
         # type: () -> t.Mapping[str, Name | MultiName ]
         if len(self.parents) == 1:
             return self.parents[0].names  # type: ignore[return-value]
@@ -132,26 +171,21 @@ class LoopFlow(object):
     def __init__(self, parent):
         # type: (Flow) -> None
         self.parent = parent
-        self._resolving = False
 
     @property
     def names(self):
         # type: () -> t.Mapping[str, Name | MultiName] | Unresolved
-        if self._resolving:
+        top = self.parent.scope.top
+        top.note_loops((self,))
+        resolving = top._resolving
+        if self in resolving:
             return UNRESOLVED
 
+        resolving.append(self)
         try:
-            return self._names
-        except AttributeError:
-            pass
-
-        self._resolving = True
-        try:
-            result = self._names = self.parent.names
+            return self.parent.names
         finally:
-            self._resolving = False
-
-        return result
+            resolving.pop()
 
 
 class SourceScope(Scope):
@@ -174,6 +208,24 @@ class SourceScope(Scope):
         self._star_imports = []
         self._attr_assigns = []
         self._global_names = {}
+        # loop back edges being resolved, innermost last, and the memo
+        # computations in progress: (depth of _resolving at their start,
+        # loops they found unresolved, loops they reached)
+        self._resolving = []  # type: list[LoopFlow]
+        self._frames = []  # type: list[tuple[int, set[LoopFlow], set[LoopFlow]]]
+
+    def note_loops(self, loops):
+        # type: (t.Iterable[LoopFlow]) -> None
+        resolving = self._resolving
+        for loop in loops:
+            try:
+                idx = resolving.index(loop)
+            except ValueError:
+                idx = len(resolving)
+            for depth, hits, reached in self._frames:
+                reached.add(loop)
+                if depth > idx:
+                    hits.add(loop)
 
     def __repr__(self):
         # type: () -> str
